@@ -198,6 +198,35 @@ def r2(ctx, retsets):
                                                                                       off[0]["counts"].get("count", 0) + off[0]["counts"].get("count?", 0))) if off else
                   "%d return states: config->len changes by %+d exactly on the paths that changed the list, and exactly those report success" % (len(outs_l), step),
                   key="C15.R2:%s:count" % gname, path=(flow.trace_lines(gf, off[0]["trace"]) if off else None))
+    # "the most preferred group" is looked up in the list as it is after the change: no list operation between the lookup and its use
+    for gname in ("rtr_mgr_add_group", "rtr_mgr_remove_group"):
+        gf = pdb.fn(gname)
+        stale = []
+
+        def classify_fresh(inst, E, st, gf=gf):
+            if inst.op == "call" and inst.callee:
+                c = inst.callee
+                if c == "tommy_list_head":
+                    return [([], {inst.ref: ("nin", frozenset([0]))})]
+                if c == "lrtr_malloc":
+                    return [([], {inst.ref: ("nin", frozenset([0]))})]
+                if c == "rtr_mgr_init_sockets":
+                    return [([], {inst.ref: flow.av_in(0)})]
+                if c == "rtr_mgr_get_first_group":
+                    return ["=looked:1"]
+                if c in ("tommy_list_insert_tail", "tommy_list_remove_existing", "tommy_list_sort") and st.get("looked") == "1":
+                    stale.append(inst)
+                    return ["=looked:stale"]
+                if c in ("rtr_mgr_start_sockets", "rtr_start") and st.get("looked") == "stale":
+                    return ["started-from-stale-lookup"]
+            if inst.op == "load" and vf.last_field(vf.expr(gf, inst["ptr"])) == "tommy_node_struct.next":
+                return flow.KILL if st.get("walk", 0) >= 1 else ["walk"]
+            return None
+        outs_f, _f = es.count_effects(gf, pdb, classify_fresh, retsets, cap=128)
+        looked = [o for o in outs_f if o["counts"].get("looked")]
+        ctx.check(bool(looked) and not stale, "C15.R2", "%s:first-group-looked-up-after-the-change" % gname, (stale[0].loc() if stale else "%s:%d" % (gf.relfile, gf.line)),
+                  ("the list is changed at line %d after the most preferred group was looked up" % stale[0].line) if stale else
+                  "every lookup of the most preferred group comes after the last list operation of its path", key="C15.R2:%s:fresh-lookup" % gname)
     for f in ("rtr_mgr_add_group", "rtr_mgr_init"):
         g = pdb.fn(f)
         ins = g.calls("tommy_list_insert_tail")
